@@ -857,6 +857,16 @@ func (m *mach) global(g *ssa.Global) *mv {
 		m.initPkg(g.Pkg)
 		return m.globals[g]
 	}
+	if g.Pkg != nil && pureStdPkgs[g.Pkg.Pkg.Path()] && g.Pkg.Pkg.Path() != "unicode" {
+		// tables of the pure standard-library packages whose bodies the machine evaluates
+		v = m.zero(elem)
+		m.globals[g] = &v
+		m.initPkg(g.Pkg)
+		if g.Pkg.Pkg.Path() == "internal/bytealg" && g.Name() == "MaxLen" {
+			*m.globals[g] = int64(63) // amd64 with AVX2; only selects between equivalent search strategies
+		}
+		return m.globals[g]
+	}
 	name := g.Name()
 	if g.Pkg != nil {
 		name = g.Pkg.Pkg.Name() + "." + name
@@ -960,7 +970,15 @@ func (m *mach) callFn(caller *mframe, fn *ssa.Function, args []mv, env []mv) mv 
 				return r
 			}
 		}
-		return m.opaqueResult(fn, args)
+		// pure standard-library code without a model is read like the module's own: its SSA body is
+		// evaluated when every argument is concrete (assembly leaves have models in stdAsmModel)
+		if r, ok := m.stdAsmModel(fn, args); ok {
+			return r
+		}
+		if !(fn.Blocks != nil && fn.Pkg != nil && pureStdPkgs[fn.Pkg.Pkg.Path()] && concreteArgs(args)) &&
+			!(fn.Blocks != nil && fn.Pkg == nil && fn.Origin() != nil && fn.Origin().Pkg != nil && pureStdPkgs[fn.Origin().Pkg.Pkg.Path()] && concreteArgs(args)) {
+			return m.opaqueResult(fn, args)
+		}
 	}
 	if m.depth > 150 {
 		m.abort("call depth exceeded in %s", fn.Name())
